@@ -749,9 +749,12 @@ def qOp {n} (kind routine : String) (W : RMat n) (γ : Rat) (c0 : Fin n → Int)
     | "sign" => do
       let t ← QType.ofString (← opt)
       let st0 := signInitFine t W γ c
-      let code := if routine == "modularity_louvain_und_sign" then
-          qSignTraceDot (aggUpper st0.W0 c) (aggUpper st0.W1 c) st0.s0 st0.s1 st0.d0 st0.d1 γ
-        else qSignOuter st0 c
+      let code ← (if routine == "modularity_louvain_und_sign" then
+          some (qSignTraceDot (aggUpper st0.W0 c) (aggUpper st0.W1 c) st0.s0 st0.s1 st0.d0 st0.d1 γ)
+        else if routine == "modularity_und_sign" then
+          -- the given-partition routine itself (the subject of `modularity_und_sign_given`), not a twin of it
+          (match modularityUndSignGiven t W c0 with | .ok r => some r.2 | .error _ => none)
+        else some (qSignOuter st0 c))
       some (Qsign t W γ cf, code)
     | "obj" => do
       let o ← opt
